@@ -44,6 +44,9 @@ def extra(ctx, info, rng, *rest):
     from lib import c04pull
     hb = c04pull.run(ctx, info, rng, only=c04pull.frag_heartbeat, count=6 if ctx.tier == "quick" else 60) or {}
     cov["pull_heartbeat"] = {k: v for k, v in hb.items() if isinstance(v, (int, float, str))}
+    # two processes on one database file: a late lease operation of one against the other's re-letting dequeue
+    from lib import twostores
+    cov.update(twostores.run_relet(ctx, info))
     return cov
 
 
